@@ -462,6 +462,57 @@ func c19Body(c *ev.Ctx) {
 			})
 		}
 		run(jobs)
+		// ---- setup histories: the --output path already holds something (keys of the other mode with the
+		// same dimensions, keys of the same mode, an interrupted earlier setup): after `setup` exits 0 the
+		// pipeline of the mode given to setup must work with that file
+		{
+			type sh struct {
+				name, mode string
+				prior      string // path whose content is put at the output path first
+			}
+			var hs []sh
+			for _, mode := range []string{"insertion", "deletion"} {
+				e := envs[mode]
+				hs = append(hs, sh{"keys of the other mode (same dimensions) at --output", mode, e.otherKey}, sh{"an interrupted earlier setup (last 4 KiB missing) at --output", mode, e.keys + ".tailcut"})
+				if !quick {
+					hs = append(hs, sh{"keys of the same mode at --output", mode, e.keys}, sh{"an 8-byte header at --output", mode, e.keys + ".header8"})
+				}
+			}
+			var sjobs []job
+			for i, h := range hs {
+				i, h := i, h
+				sjobs = append(sjobs, func() {
+					e := envs[h.mode]
+					out := filepath.Join(scratchDir(), fmt.Sprintf("resetup-%d-%d-%d.ps", d, b, i))
+					defer os.Remove(out)
+					data, err := os.ReadFile(h.prior)
+					if err != nil || os.WriteFile(out, data, 0o644) != nil {
+						return
+					}
+					note("setup-history|" + h.name)
+					fail := func(msg string) {
+						c.Violation("pipeline|setup-history|"+h.mode+"|"+h.name, fmt.Sprintf("setup --mode %s (%d,%d) with %s: %s", h.mode, d, b, h.name, msg), c19Case{Stage: "history", SysMode: h.mode, D: d, B: b, Steps: []string{"setup onto existing file", h.name}})
+					}
+					r, err := runCLI(nil, 20*time.Minute, "setup", "--mode", h.mode, "--output", out, "--tree-depth", fmt.Sprint(d), "--batch-size", fmt.Sprint(b))
+					if err != nil {
+						c.HarnessError("%v", err)
+					}
+					if r.Exit != 0 {
+						return // refusing to overwrite is an honest failure
+					}
+					p, _ := runCLI(e.params, 15*time.Minute, "prove", "--mode", h.mode, "--keys-file", out)
+					if p.Exit != 0 {
+						fail("setup exited 0, but `prove` with the resulting keys file fails for generated parameters: " + tailStr(p.Stderr))
+						return
+					}
+					v, _ := runCLI(p.Stdout, 15*time.Minute, "verify", "--mode", h.mode, "--keys-file", out, "--input-hash", "0x"+e.hash.Text(16))
+					if v.Exit != 0 {
+						fail("setup and prove exited 0, but `verify` rejects the proof under the same keys file: " + tailStr(v.Stderr))
+					}
+				})
+			}
+			run(sjobs)
+		}
 		// unknown / missing mode for the commands that take one and no keys
 		for _, cmdline := range [][]string{{"setup", "--output", filepath.Join(scratchDir(), "x.ps"), "--tree-depth", "1", "--batch-size", "1"}, {"setup", "--mode", "bogus", "--output", filepath.Join(scratchDir(), "x.ps"), "--tree-depth", "1", "--batch-size", "1"}, {"gen-test-params", "--tree-depth", "2", "--batch-size", "1"}, {"gen-test-params", "--mode", "bogus", "--tree-depth", "2", "--batch-size", "1"}, {"r1cs", "--mode", "bogus", "--output", filepath.Join(scratchDir(), "x.r1cs"), "--tree-depth", "1", "--batch-size", "1"}} {
 			r, err := runCLI(nil, 10*time.Minute, cmdline...)
